@@ -37,7 +37,14 @@ SPEC = dict(
          "(quick) / 5 (thorough) over a 9-symbol alphabet {switch to A, B, case-look-alike of A; carbon from A, from B, from the "
          "look-alike, from A's full JID, without from; plain message} for both generations, plus 120 / 1200 random clients with "
          "~12% switches among 7 accounts and senders drawn from current, former and look-alike own JIDs; oracle and model judge "
-         "every stanza against the configuration current at that moment. A client's sequence is non-trivial when it yields >= 2 "
+         "every stanza against the own account current at that moment. The own account is tracked by the HARNESS, not read "
+         "from the client: bare part (cut at the first '/') of the JID given to setJid / assembled from setUser+setDomain / bound by "
+         "the scripted server; after every configuration op and login configuration().jidBare() is compared with it "
+         "(C11:own-jid-wrong) and the sender rule uses the harness value. `jid <full>` op: model computes bareOf, implementation "
+         "prints jidBare(). Full JIDs with '@' and '/' in the resource, domain-only accounts. Real socket-less logins (signals of "
+         "XmppSocket emitted by the harness): legacy resource binding (PLAIN, ANONYMOUS) and SASL 2 + Bind 2, 14 scenarios x 2 "
+         "generations with bound JID != configured JID (alias, anonymous, server-normalised case, other domain) and '@'/'/' in "
+         "the bound resource, followed by sender battery x wrapper shapes and random stanzas. A client's sequence is non-trivial when it yields >= 2 "
          "distinct observations. Outer and inner type over {chat, normal, groupchat, headline, error, absent, empty, unknown, wrong case}; "
          "inner payload extras (subject, thread, private, receipt request, hint, unknown extension), forwarded-in-forwarded, carbon in "
          "MAM result and MAM result in carbon, inner from = attacker; a sender-rule battery (16 named senders x 9 types x sent/received "
@@ -51,8 +58,10 @@ SPEC = dict(
         "QString operator!= is code-unit equality (no normalisation), matched by Lean String equality on well-formed Unicode",
     ],
     assumptions=[
-        "own = client()->configuration().jidBare() as configured/bound at the time the stanza is handled; on an established session this "
-        "is the JID bound by the server. With an unset JID (empty string) a stanza without from compares equal and is unwrapped "
+        "own account = bare part of the JID configured (setJid / setUser+setDomain) or bound by the server, tracked by the harness and "
+        "compared with configuration().jidBare(). Not generated: a domain-only JID whose resource contains '@' given to setJid "
+        "(jidToUser takes the first '@' of the whole string, so jidBare() is wrong on the clean tree; legacy bind only accepts "
+        "local@domain/resource and overwrites user/domain, so this does not survive a login — reported, not registered). With an unset JID (empty string) a stanza without from compares equal and is unwrapped "
         "(theorem empty_sender_unwrapped_only_if_unconfigured; counted in stats as oracle_*_accepted_with_empty_from_and_unconfigured_jid); "
         "not reachable by a contact",
         "the server stamps the outer from of relayed stanzas (XMPP core); the property is about what the client does with that attribute",
@@ -69,9 +78,11 @@ SPEC = dict(
                "outer's own last body, flag unset), the wrapper staying an uninterpreted extension (rejected_is_ordinary, "
                "foreign_sender_is_ordinary); per stanza and over arbitrary histories with account switches every surfaced message is "
                "the outer one or an own-account carbon (presented_is_outer_or_own_carbon, flag_iff_unwrapped, "
-               "consumed_presents_only_the_inner, history_*). ENFORCED ON THE REAL CODE (oracle, model-independent, every stanza, both "
-               "QXmppCarbonManagerV2 and QXmppCarbonManager with its messageSent/messageReceived signals): flagged or carbon-signal "
-               "message => DOM outer from == jidBare() current at that moment; the delivered message serialised by toXml equals, as a "
+               "consumed_presents_only_the_inner, history_*); after the server bound a JID only its bare part — cut at the first slash, "
+               "resource may contain @ and / — is accepted (bound_only_bare_of_bound_jid, bareOf_full, bareOf_bare). ENFORCED ON THE REAL CODE (oracle, model-independent, every stanza, both "
+               "QXmppCarbonManagerV2 and QXmppCarbonManager with its messageSent/messageReceived signals): configuration().jidBare() == the own bare JID the harness "
+               "computed itself after every config op / scripted login (own-jid-wrong); flagged or carbon-signal "
+               "message => DOM outer from == that harness-computed own bare JID current at that moment; the delivered message serialised by toXml equals, as a "
                "canonical tree (attributes, type, body/subject/thread, every other child incl. private/receipt/hint/unknown extension "
                "and nested forwarded/carbon/MAM payloads) one wrapped inner element of the right direction, and equals byte-for-byte "
                "toXml(parse(that element)); unflagged message => equals toXml(parse(outer stanza)) and the outer element (fields + set of "
